@@ -200,8 +200,20 @@ class NarwhalsMaterializer(FormulaMaterializer):
             if spec.output == "sparse":
                 return spsparse.csc_matrix(values)
             if spec.output == "narwhals":
-                # TODO: Inconsistent with non-empty case below (where we use to-native)
-                return nw.from_native(values, eager_only=True)
+                native_namespace = nw.get_native_namespace(self.__narwhals_data)
+                empty = (
+                    nw.from_native(
+                        _with_pandas_index(
+                            pandas.DataFrame(values), self.data, drop_rows
+                        ),
+                        eager_only=True,
+                    )
+                    if native_namespace is pandas
+                    else nw.from_dict({}, native_namespace=native_namespace)
+                )
+                if nw.dependencies.is_narwhals_dataframe(self.data):
+                    return empty
+                return empty.to_native()
             if spec.output == "numpy":
                 return values
             return _with_pandas_index(pandas.DataFrame(values), self.data, drop_rows)
